@@ -50,8 +50,14 @@ func fileServerTable(h H) *fsTableResult {
 	for hideMain := 0; hideMain < 2; hideMain++ {
 		for offer := 0; offer < 1<<n; offer++ {
 			for exist := 0; exist < 1<<n; exist++ {
-				for hid := 0; hid < 1<<n; hid++ {
+				for hidR := 0; hidR < (1<<n)*(1<<n); hidR++ {
+					// refuse: codings the client lists with ";q=0" (explicitly not acceptable) — explored with every
+					// sibling present and nothing hidden
+					hid, refuse := hidR%(1<<n), hidR/(1<<n)
 					if hid&^exist != 0 {
+						continue
+					}
+					if refuse != 0 && (hideMain != 0 || hid != 0 || exist != (1<<n)-1 || refuse&offer != 0) {
 						continue
 					}
 					res.cases++
@@ -84,6 +90,9 @@ func fileServerTable(h H) *fsTableResult {
 					for i := n - 1; i >= 0; i-- { // offered in the reverse of the priority order, with blanks
 						if offer&(1<<i) != 0 {
 							offered = append(offered, names[i])
+						}
+						if refuse&(1<<i) != 0 {
+							offered = append(offered, names[i]+";q=0")
 						}
 					}
 					respHdr := amap{&amapData{vals: map[string]aval{}, keys: map[string]aval{}, typ: hdrT}}
